@@ -888,6 +888,7 @@ func (h *NtfnsHandler) asyncImport(walletId string) (finish bool, err error) {
 		if stop > h.bestBlock.Height {
 			stop = h.bestBlock.Height
 		}
+		stop = verifImportStop(ws.SyncedHeight, stop)
 		result, err := fetcher.FetchScriptHashRelatedTx(relatedHashes, ws.SyncedHeight+1, stop+1, h.walletMgr.chainParams)
 		if err != nil {
 			return err
